@@ -420,9 +420,10 @@ Definition py_eq (a b : scalar) : bool :=
   let '(x, e1) := sc_num a in let '(y, e2) := sc_num b in
   (x * 2 ^ Z.of_N e2 =? y * 2 ^ Z.of_N e1)%Z.
 
-(* the fixed key (proposed_fixes/C12_constant_cache_negative_zero.diff): a float element is keyed
-   as (value, copysign(1.0, value)) -- a tuple, never equal to a bare int/bool; literals are in
-   lowest terms, so equal floats with equal sign are syntactically equal *)
+(* the fixed key (proposed_fixes/C12_constant_cache_negative_zero.diff): the key gets a third component,
+   the sign bits of the float elements (None for ints and bools) -- so a float never shares with an
+   int/bool, and equal floats share only with equal sign; literals are in lowest terms, so equal
+   floats with equal sign are syntactically equal *)
 Definition key_eq_signed (a b : scalar) : bool :=
   match a, b with
   | SFloat n1 m1 e1, SFloat n2 m2 e2 => Bool.eqb n1 n2 && (m1 =? m2)%N && (e1 =? e2)%N
